@@ -2,10 +2,10 @@ HOOK_COMMITS = ["0cc1f16"]
 FIX_COMMITS = ["f6ef902", "7953ad1", "5a73e74", "74bd988", "162c4e5", "d681b06", "d1e67ed", "f178a91", "418e2ff", "882956a", "d9c0ebc", "11b0018", "91d1a50", "a9847ff", "743a30c", "d549723", "3e1966b", "816a010", "7ee2a7b", "bd3a255", "d87f4bc", "631a338", "de5bff3", "946afa5", "d41c9aa", "06c6f23", "210e7e2", "c26765c", "9c63f25", "c602bea", "370a097", "8bdfd58", "835a652", "1838bee", "af85037"]
 NOTES = "All checks: bin/check <ID> --tier quick|thorough [--replay file]; exit 0/1/2 (2 = TOOL-ERROR). See DESIGN.md."
 NOT_APPLICABLE = {}
-_EVAL_NOTE = "Program-level values of 32/64-bit types are restricted to magnitude < 2^30 (TLC integers); runs outside the modelled fragment are counted as out_of_model and not judged. The typed AST is the checker's (parser desugarings such as <= and op-assignment are already applied), so duplicated evaluation introduced by the parser is not visible in this direction. Trusted: the projection typed AST -> JSON (harness/src/proj.rs), JSON value -> Literal conversion, TLC."
+_EVAL_NOTE = "Program-level values of 32/64-bit types are restricted to magnitude < 2^30 (TLC integers); runs outside the modelled fragment are counted as out_of_model and not judged. The projection restores the surface forms <=, >= and op= from the parser's rewritten form (recognised by their shared span), and the oracle evaluates their operands once. Trusted: the projection typed AST -> JSON (harness/src/proj.rs), JSON value -> Literal conversion, TLC."
 CHECKS = {
     "C07": {
-        "text": "Scanner.tla models the scanner's loops as a state machine over an abstract alphabet and TLC checks totality as an invariant for all strings up to the bound (the scanner without end-of-input exit in the block-comment loop is the refuted negative control); every model string, every single-token edit (TLC-enumerated: prefix, delete, duplicate, swap, substitute / insert ~78 token spellings at every position) of corpus and generated programs and of literal texts, and random token soup / bytes are run through scan, parse, check, compile, prettify and the argument parser in supervised worker processes with a deadline; every run is an event judged by Trace_FrontEnd.tla (OutcomeOK).",
+        "text": "Scanner.tla models the scanner's loops as a state machine over an abstract alphabet and TLC checks totality as an invariant for all strings up to the bound (the scanner without end-of-input exit in the block-comment loop is the refuted negative control); every model string, every single-token edit (TLC-enumerated: prefix, delete, duplicate, swap, substitute / insert ~78 token spellings at every position) of corpus and generated programs and of literal texts, and random token soup / bytes are run through scan, parse, check, compile, prettify and the argument parser in supervised worker processes with a deadline; every run is an event judged by Trace_FrontEnd.tla (OutcomeOK). Further spaces: the cut-and-continue space (Gen_TokenStrings.tla: every prefix of construct-covering programs followed by every short token string), operand substitution in long generated programs, the operator x operand-type matrix (Gen_OpMatrix.tla), constant declarations that refer to themselves / later / unknown constants; a hang or crash is confirmed by re-running the input alone.",
         "design_ref": "DESIGN.md §5 C07",
         "note": "Only the scanner's loop structure is modelled as a state machine; the parser is exercised through the enumerated perturbations, not modelled. Deadline 6 s per input; after 12 hangs/crashes in one batch the remaining inputs of that batch are not run (counted in the evidence). Deep nesting and very large inputs are outside the explored space. The token splitter used to cut corpus programs is the harness's own.",
         "technique": "TLA+ state machine of the scanner checked by TLC; TLC-enumerated perturbation space replayed into the front end; TLC trace validation of the outcomes",
@@ -17,7 +17,7 @@ CHECKS = {
         "technique": "TLA+ model of iteration-order nondeterminism checked by TLC + TLC trace validation of repeated real compilations",
     },
     "C12": {
-        "text": "ConstEval.tla defines the value of a top-level constant (wrapping arithmetic of the declared type at every sub-expression, references to earlier constants); Gen_Consts.tla enumerates declaration shapes x boundary assignments x fault modes of the supplied map and emits the expected values or the exact set of constants an error must name; the harness compiles every case six times with fresh maps, evaluates it and compares with the expected bits, and with the program in which every constant is replaced by its value.",
+        "text": "ConstEval.tla defines the value of a top-level constant (wrapping arithmetic of the declared type at every sub-expression, references to earlier constants); Gen_Consts.tla enumerates declaration shapes x boundary assignments x fault modes of the supplied map and emits the expected values or the exact set of constants an error must name; the harness compiles every case six times with fresh maps, evaluates it and compares with the expected bits, and with the program in which every constant is replaced by its value. Const-sized parameters (also nested in a fixed-size array and in a tuple) are supplied through the literal API and read back through the circuit.",
         "design_ref": "DESIGN.md §5 C12",
         "note": "Types u8, i8, u16, i16 for arithmetic; usize only for sizes (array size, loop trip count) with values 0..3 and no wrap; bool constants and single-array multi-party programs are not enumerated. Trusted: rendering of declarations and construction of the constants map in harness/src/c12.rs, TLC.",
         "technique": "TLC-enumerated const programs and fault modes with oracle values replayed into compile_with_constants",
@@ -29,7 +29,7 @@ CHECKS = {
         "technique": "TLC-enumerated arm lists with oracle verdicts replayed into checker and compiler; TLC validation of the checker's witnesses",
     },
     "C09": {
-        "text": "Layout.tla is the documented bit layout; Gen_Literals.tla enumerates the bounded type universe x boundary values and, for each value, the expected bits and the adversarial family of literal spellings with their denotation (canonical / same value / no value); the harness replays every spelling into literal_arg, set_literal, as_bits, from_unwrapped_bits, to_string+parse_arg, text perturbations and the identity program.",
+        "text": "Layout.tla is the documented bit layout; Gen_Literals.tla enumerates the bounded type universe x boundary values and, for each value, the expected bits and the adversarial family of literal spellings with their denotation (canonical / same value / no value); the harness replays every spelling into literal_arg, set_literal, as_bits, from_unwrapped_bits, to_string+parse_arg, text perturbations and the identity program. EvalSession.tla models an evaluation session (set_<prim>, set_literal, parse_literal, run); TLC checks LiteralsAreChecked and every call history of the bound is replayed into a real Evaluator (same outcome of every call, no panic).",
         "design_ref": "DESIGN.md §5 C09",
         "note": "Type universe fixed in Gen_Literals.tla (all primitives, arrays of 0-3, tuples of 0-3, one struct, enums with 3 and 5 variants, one level of nesting in thorough); wide integer values restricted to magnitudes TLC can hold. Trusted: JSON -> Literal conversion in harness/src/c09.rs, TLC.",
         "technique": "TLC-enumerated values and literal spellings with oracle bits, replayed into the literal API",
@@ -41,25 +41,25 @@ CHECKS = {
         "technique": "TLA+ export design model checked by TLC; TLC trace validation of real exports/imports; TLC-enumerated file perturbations replayed into the importer",
     },
     "C13": {
-        "text": "Bitonic.tla models the compare-exchange networks (merger with m = previous power of two, sorter with descending/ascending halves) and the join pipeline (padding, tag bit, reversed second array, adjacent windows) and TLC checks them against the sorted-merge join on all 0/1 inputs and all small ascending / non-descending key sequences; every enumerated input is replayed into the real networks (verif_hooks), into compiled for-join programs (judged by GarbleSem's for-join through Trace_Eval.tla: pairs, order, effects and panics only for joined rows) and into compiled `join` built-in programs (Trace_Join.tla: flagged entries exactly the matches, each common key once, unflagged entries zero, flags sorted).",
+        "text": "Bitonic.tla models the compare-exchange networks (merger with m = previous power of two, sorter with descending/ascending halves) and the join pipeline (padding, tag bit, reversed second array, adjacent windows) and TLC checks them against the sorted-merge join on all 0/1 inputs and all small ascending / non-descending key sequences; every enumerated input is replayed into the real networks (verif_hooks), into compiled for-join programs (judged by GarbleSem's for-join through Trace_Eval.tla: pairs, order, effects and panics only for joined rows) and into compiled `join` built-in programs (Trace_Join.tla: flagged entries exactly the matches, each common key once, unflagged entries zero, flags sorted). Associated data of the join built-in varies in width and arity between the two sides; the quick tier also samples key sets with result lengths up to 9.",
         "design_ref": "DESIGN.md §5 C13",
         "note": "Bounds: networks on all 0/1 inputs up to length 9 (quick) / 13 (thorough) and power-of-two mergers up to 16; key sets n,m <= 3 (quick) / 5 (thorough) over a small key domain containing 0; key types u8, u16, (u8,u8), [u8;2]. Trusted: program templates in harness/src/c13.rs, projection, TLC.",
         "technique": "TLA+ design model of the bitonic networks and join pipeline checked by TLC; TLC-enumerated inputs replayed into the implementation; TLC trace validation of join results",
     },
     "C01": {
-        "text": "GarbleSem.tla is a definitional interpreter of the source language over an explicit state (scope stack, panic set) and Layout.tla the documented bit layout; the real compiler's output for corpus programs and for thousands of generated well-typed programs, in all four configurations, is recorded on boundary-biased inputs and every run is validated by TLC (Trace_Eval.tla): arguments re-encoded, program re-executed by the oracle, output bits compared.",
+        "text": "GarbleSem.tla is a definitional interpreter of the source language over an explicit state (scope stack, panic set) and Layout.tla the documented bit layout; the real compiler's output for corpus programs and for thousands of generated well-typed programs, in all four configurations, is recorded on boundary-biased inputs and every run is validated by TLC (Trace_Eval.tla): arguments re-encoded, program re-executed by the oracle, output bits compared. Spec->impl family: the arm lists of Gen_Arms.tla are evaluated on every value of the scrutinee type (first matching arm decides). Generated programs contain for-join loops over literal tables, un-suffixed patterns and effect blocks in operands and indices.",
         "design_ref": "DESIGN.md §5 C01",
         "note": _EVAL_NOTE,
         "technique": "TLA+ executable source semantics; TLC trace validation of recorded compile+eval runs of the real compiler",
     },
     "C02": {
-        "text": "Same oracle as C01 with the panic clauses judged: panic flag iff GarbleSem.Run fails, reason equal, reported span that of an admissible first failing operation (the oracle carries the set of admissible first failures where the language leaves the order free), no panic from untaken branches/arms/short-circuited operands; failing-site-dense generated programs and regression witnesses of the repaired panic-record defects.",
+        "text": "Same oracle as C01 with the panic clauses judged: panic flag iff GarbleSem.Run fails, reason equal, reported span that of an admissible first failing operation (the oracle carries the set of admissible first failures where the language leaves the order free), no panic from untaken branches/arms/short-circuited operands; failing-site-dense generated programs and regression witnesses of the repaired panic-record defects. Design + spec->impl: PanicRecord.tla (running panic record with its condition cache, driven as compile.rs does for sequences, if/else, &&, || and three-clause matches) is model-checked (FirstFailureWins, PanicMonotone; the superseded cache schemes are refuted controls) and every panic skeleton of the bound plus simulated longer ones is rendered to a program and evaluated in every world.",
         "design_ref": "DESIGN.md §5 C02",
         "note": _EVAL_NOTE,
         "technique": "TLA+ executable source semantics with admissible-first-failure sets; TLC trace validation of recorded runs",
     },
     "C14": {
-        "text": "Same oracle as C01 on mutation-heavy generated programs whose main returns every variable in scope: GarbleSem.tla threads an explicit scope stack through blocks, branches, arms, loop iterations and calls (by-value, callee sees constants and parameters only), so any leak of a binding, any aliasing of copies or any wrong merge after control flow changes an observed output.",
+        "text": "Same oracle as C01 on mutation-heavy generated programs whose main returns every variable in scope: GarbleSem.tla threads an explicit scope stack through blocks, branches, arms, loop iterations and calls (by-value, callee sees constants and parameters only), so any leak of a binding, any aliasing of copies or any wrong merge after control flow changes an observed output. Design + spec->impl: CompileScheme.tla (environment threading: clone + mux for if / && / match clauses, scope per block and per loop iteration, callee sees constants only) is model-checked (SchemeRefinesSem; three superseded schemes are refuted controls) and every environment skeleton of the bound plus simulated longer ones is rendered and evaluated in every world.",
         "design_ref": "DESIGN.md §5 C14",
         "note": _EVAL_NOTE,
         "technique": "TLA+ executable source semantics with explicit scope stack; TLC trace validation of recorded runs",
@@ -71,7 +71,7 @@ CHECKS = {
         "technique": "TLC-generated exhaustive oracle tables replayed into the implementation + TLC trace validation of wide-type operator events",
     },
     "C04": {
-        "text": "Builder.tla transcribes the gate builder (constant folding, gate cache, negation map, every XOR/AND rewrite rule in code order, pruning and renumbering) as a state machine; TLC checks ResponseSound, AppendOnly, BuildPreservesOutputs over all request sequences in the bound for both cache modes. Every request history of the bound, plus simulated longer histories with macro requests, is replayed into the real CircuitBuilder and the built circuit is compared with the literal truth tables; random 50-400-request sequences recorded from the real builder are validated step by step by Trace_Builder.tla; corpus programs compiled with de-duplication on/off are compared (Trace_OnOff.tla).",
+        "text": "Builder.tla transcribes the gate builder (constant folding, gate cache, negation map, every XOR/AND rewrite rule in code order, pruning and renumbering) as a state machine; TLC checks ResponseSound, AppendOnly, BuildPreservesOutputs over all request sequences in the bound for both cache modes. Every request history of the bound, plus simulated longer histories with macro requests, is replayed into the real CircuitBuilder and the built circuit is compared with the literal truth tables; random 50-400-request sequences recorded from the real builder are validated step by step by Trace_Builder.tla; corpus programs compiled with de-duplication on/off are compared (Trace_OnOff.tla). Trace_OnOff.tla classifies an on/off difference as payload_only (no circuit reports a panic and only reason / location bits of the panic record differ: open known finding) or observable.",
         "design_ref": "DESIGN.md §5 C04",
         "note": "Bounds: design model 2 inputs <=3-5 requests, 3 inputs <=3-4; replay exhaustive for 2 inputs/3 requests, sampled beyond; truth tables over <=4 inputs. Trusted: verif_hooks wrapper (thin delegation), harness replay loop, TLC.",
         "technique": "TLA+ state machine of the builder model-checked by TLC; TLC-generated request histories replayed into the real builder; TLC trace validation of recorded request sequences",
@@ -83,13 +83,13 @@ CHECKS = {
         "technique": "TLC invariant on the builder design model + TLC trace validation of logged built circuits against shape predicates",
     },
     "C05": {
-        "text": "Layout.tla (SizeOf) is the oracle for the I/O shape; every program the real checker accepts is compiled for every pub fn (and for several assignments of its external constants) and the observation - parties and bits per party, output count, validate() of the SSA and the register form, evaluation on the zero and a random valid input, decoding by the declared return type - is one event judged by Trace_Shape5.tla. Program sources: corpus, ~1900 programs over zero-sized / single-array / const-sized parameter and return types, generated fully annotated programs, and for each of them every single literal-suffix erasure (up to 16 sites), random pairs / triples and the all-erased variant. Converse clause: generated programs and type-preserving rewrites of them (block, if true, let, tuple access, array index, match, identity cast, operand swap at random expression sites) that GarbleTypes.WellTyped accepts must be accepted by the checker (Trace_Types.tla).",
+        "text": "Layout.tla (SizeOf) is the oracle for the I/O shape; every program the real checker accepts is compiled for every pub fn (and for several assignments of its external constants) and the observation - parties and bits per party, output count, validate() of the SSA and the register form, evaluation on the zero and a random valid input, decoding by the declared return type - is one event judged by Trace_Shape5.tla. Program sources: corpus, ~1900 programs over zero-sized / single-array / const-sized parameter and return types, generated fully annotated programs, and for each of them every single literal-suffix erasure (up to 16 sites), random pairs / triples and the all-erased variant. Converse clause: generated programs and type-preserving rewrites of them (block, if true, let, tuple access, array index, match, identity cast, operand swap at random expression sites) that GarbleTypes.WellTyped accepts must be accepted by the checker (Trace_Types.tla). The operator x operand-type matrix (Gen_OpMatrix.tla): well-typed applications must be accepted and compile; an erased variant typed exactly like the annotated program must compute the same outputs.",
         "design_ref": "DESIGN.md \u00a75 C05",
         "note": "Open known finding unspecified-binding (names bound to un-suffixed literals keep 32 wires); events of programs with such a binding are identified from the typed program and not judged. Programs rejected by the checker are only counted. Checker panics on erased variants are counted here and judged by C07. Trusted: harness/src/printer.rs (validated by print -> parse -> project round trip on every base program), Proj::ty, TLC.",
         "technique": "trace validation of compile observations against the TLA+ layout oracle; TLA+ static semantics as acceptance oracle",
     },
     "C17": {
-        "text": "GarbleTypes.tla is an executable specification of the static semantics for fully annotated programs (all types re-derived from declarations and literal suffixes; documented rules only). Generated well-typed programs are projected to ASTs; every applicable site receives every rule-breaking edit of 33 kinds (operand / argument / return / branch / pattern types, conditions, unknown names, immutability, argument / field / variant arity, duplicated fields, tuple index and tuple pattern arity, refutable let / for patterns, literal and pattern literals out of range, direct and mutual recursion, unused private fn, pub fn without parameters), thorough adds pairs of edits; each mutant is rendered, checked by the real checker and is one event of Trace_Types.tla: a mutant that WellTyped rejects must be rejected with errors (accepted, or a checker panic, is a violation).",
+        "text": "GarbleTypes.tla is an executable specification of the static semantics for fully annotated programs (all types re-derived from declarations and literal suffixes; documented rules only). Generated well-typed programs are projected to ASTs; every applicable site receives every rule-breaking edit of 33 kinds (operand / argument / return / branch / pattern types, conditions, unknown names, immutability, argument / field / variant arity, duplicated fields, tuple index and tuple pattern arity, refutable let / for patterns, literal and pattern literals out of range, direct and mutual recursion, unused private fn, pub fn without parameters), thorough adds pairs of edits; each mutant is rendered, checked by the real checker and is one event of Trace_Types.tla: a mutant that WellTyped rejects must be rejected with errors (accepted, or a checker panic, is a violation). The operator x operand-type matrix (Gen_OpMatrix.tla, 5985 applications) is judged in both directions.",
         "design_ref": "DESIGN.md \u00a75 C17",
         "note": "Only mutants the specification itself judges ill-typed are demanded to be rejected (coverage reports them per rule); accepted mutants must round-trip (text parses back to the mutant AST) to be judged. Not modelled: const expressions beyond literals, join, generics-free language has no further rules. Trusted: printer, projection, TLC.",
         "technique": "TLA+ static-semantics oracle over mutation-generated programs, real checker verdicts validated as a trace",
